@@ -44,7 +44,7 @@ PROPS = {
     'C07': {
         'modules': ['C07', 'TieWrite', 'TieRead', 'TieRun', 'TieCodec'],
         'families': [('corpus:', 0, 0), ('ep:tinybuf', 600, 15000), ('ep:hostile', 2500, 80000), ('ep:mixed', 500, 20000), ('ep:limits', 300, 10000),
-                     ('hs:server', 1200, 40000), ('hs:client', 1200, 40000), ('tp', 150, 4000)],
+                     ('hs:server', 1200, 40000), ('hs:client', 1200, 40000), ('tp', 150, 4000), ('ep:cfglive', 400, 8000)],
         'rule': 'random, mutated-valid and boundary-crafted byte streams x per-call transport outcomes {n bytes, 0, WouldBlock, Interrupted, reset, '
                 'other error} on read, write and flush x roles x finite limits, sockets and both handshakes; every call under catch_unwind, '
                 'debug assertions and overflow checks on, a transport-call watchdog against spinning',
@@ -108,7 +108,7 @@ PROPS = {
     },
     'C05': {
         'modules': ['C05', 'TieWrite', 'TieRead', 'TieRun', 'TieCodec'],
-        'families': [('fs', 500, 15000), ('ep:codec', 2500, 80000), ('ep:sizes', 300, 5000), ('ep:pipe', 150, 3000)],
+        'families': [('fs', 500, 15000), ('ep:codec', 2500, 80000), ('ep:sizes', 300, 5000), ('ep:pipe', 150, 3000), ('ep:cfglive', 400, 8000)],
         'rule': 'inbound streams under many segmentations (1-byte, small, large chunks, WouldBlock between segments), every (pre-read, rest) split '
                 'the generator picks, six read-buffer sizes; each case compared with the one-shot decoder of the whole stream',
         'assumptions': ['the outbound side accepts what it is offered (the property is about how the INBOUND stream is cut); '
@@ -204,7 +204,7 @@ PROPS = {
     },
     'C06': {
         'modules': ['C06', 'C06Global', 'TieWrite', 'TieRead', 'TieRun', 'TieCodec', 'TieColl'],
-        'families': [('fs', 800, 20000), ('corpus:limits', 0, 0), ('ep:limits', 1500, 40000), ('ep:codec', 500, 10000)],
+        'families': [('fs', 800, 20000), ('corpus:limits', 0, 0), ('ep:limits', 1500, 40000), ('ep:codec', 500, 10000), ('ep:cfglive', 400, 8000)],
         'rule': 'frame/fragment size patterns around the configured limits (limit-1, limit, limit+1; limits 0,1,5,10,125,126,300), '
                 'headers announcing up to 2^64-1 bytes with nothing following, every read-buffer size; read-only cases are also '
                 'checked against the one-shot RFC decoder with the same limits',
@@ -236,7 +236,7 @@ PROPS = {
     },
     'C12': {
         'modules': ['C12', 'C12Global', 'TieWrite', 'TieRead', 'TieRun', 'TieFrame'],
-        'families': [('ep:slotrace', 1, 1), ('corpus:defects', 0, 0), ('ep:close', 2000, 60000), ('ep:backpressure', 1500, 40000), ('pure:closecode', 1, 1)],
+        'families': [('ep:slotrace', 1, 1), ('corpus:defects', 0, 0), ('ep:close', 2000, 60000), ('ep:backpressure', 1500, 40000), ('pure:closecode', 1, 1), ('ep:cfglive', 400, 8000)],
         'rule': 'close frames with every class of status code (all 65536 through the conversion functions), reasons empty..123 bytes, '
                 'arriving in every connection state, with and without a pending pong',
         'assumptions': [],
@@ -249,7 +249,7 @@ PROPS = {
     },
     'C14': {
         'modules': ['C14', 'C14Global', 'TieWrite', 'TieCodec', 'TieExamples'],
-        'families': [('fs', 500, 15000), ('ep:slotrace', 1, 1), ('corpus:defects', 0, 0), ('ep:backpressure', 2000, 60000), ('ep:tinybuf', 600, 15000), ('ep:wbound', 1, 1), ('ep:mixed', 500, 10000)],
+        'families': [('fs', 500, 15000), ('ep:slotrace', 1, 1), ('corpus:defects', 0, 0), ('ep:backpressure', 2000, 60000), ('ep:tinybuf', 600, 15000), ('ep:wbound', 1, 1), ('ep:mixed', 500, 10000), ('ep:cfglive', 400, 8000)],
         'rule': '(write_buffer_size, max_write_buffer_size) pairs incl. 0 and adjacent values, message size sequences, transport refusal '
                 'windows, ping floods while blocked',
         'assumptions': ['max_write_buffer_size holds the largest single frame used (property quantifier)'],
